@@ -23,12 +23,13 @@ func TestMain(m *testing.M) { pbt.Main(m, "C12") }
 
 type Case struct {
 	Cfg   all.Cfg     `json:"cfg"`
-	Elem  string      `json:"elem"`  // int | string
-	Prior []script.Op `json:"prior"` // builds the prior content
-	In    []byte      `json:"in"`    // the bytes given to FromJSON / json.Unmarshal (base64 in the case file)
-	Show  string      `json:"show"`  // the same bytes, quoted, for the reader (ignored by the check)
-	Via   string      `json:"via"`   // fromjson | unmarshal
-	Cont  []script.Op `json:"cont"`  // follow-up operations
+	Elem  string      `json:"elem"`           // int | string
+	Prior []script.Op `json:"prior"`          // builds the prior content
+	In    []byte      `json:"in"`             // the bytes given to FromJSON / json.Unmarshal (base64 in the case file)
+	Show  string      `json:"show"`           // the same bytes, quoted, for the reader (ignored by the check)
+	Via   string      `json:"via"`            // fromjson | unmarshal
+	Cont  []script.Op `json:"cont"`           // follow-up operations
+	More  [][]byte    `json:"more,omitempty"` // further inputs loaded one after the other right after In (each checked like In)
 }
 
 func check(c Case) (pbt.Info, error) {
@@ -94,136 +95,154 @@ func checkE[E cmp.Ordered](c Case, d script.Domain[E], parseKey func(string) (E,
 		script.Apply(h, d, op)
 		m.Apply(d, op)
 	}
-	before := h.Observe()
-	beforeJSON, _ := h.ToJSON()
-	priorLen := m.Len()
-	if !all.EqualStates(before, m.Expect()) {
-		return info, fmt.Errorf("%s: prior state %s differs from the model %s (a C01-C06 matter, reported here because it invalidates the case)", kind, describe(before), describe(m.Expect()))
-	}
-
-	// reference denotation: encoding/json into a FRESH slice / map
-	var refSlice []E
-	var refMap map[E]E
-	var refErr error
-	if all.KeyValue(kind) {
-		refErr = json.Unmarshal(c.In, &refMap)
-	} else {
-		refErr = json.Unmarshal(c.In, &refSlice)
-	}
-
-	var err error
-	if c.Via == "unmarshal" {
-		err = json.Unmarshal(c.In, h.AsJSON)
-	} else {
-		err = h.FromJSON(c.In)
-	}
-	after := h.Observe()
-	in := fmt.Sprintf("%q", c.In)
-
-	switch {
-	case refErr != nil:
-		info.Label("in:rejected-by-encoding/json")
-	case bytes.Equal(bytes.TrimSpace(c.In), []byte("null")):
-		info.Label("in:null")
-	case len(refSlice)+len(refMap) == 0:
-		info.Label("in:empty")
-	default:
-		info.Label("in:valid-non-empty")
-	}
-
-	if err != nil {
-		info.Label("out:error")
-		// atomic on error: exactly as before
-		if !all.EqualStates(before, after) {
-			return info, fmt.Errorf("%s: %s(%s) returned error %q but changed the container: %s -> %s", kind, c.Via, in, err, describe(before), describe(after))
+	var (
+		in         string
+		err        error
+		refErr     error
+		refSlice   []E
+		refMap     map[E]E
+		priorLen   int
+		anyNT      bool
+		before     all.State[E]
+		beforeJSON []byte
+	)
+	for li, inBytes := range append([][]byte{c.In}, c.More...) {
+		before = h.Observe()
+		beforeJSON, _ = h.ToJSON()
+		priorLen = m.Len()
+		refSlice, refMap = nil, nil
+		if !all.EqualStates(before, m.Expect()) {
+			return info, fmt.Errorf("%s: prior state %s differs from the model %s (a C01-C06 matter, reported here because it invalidates the case)", kind, describe(before), describe(m.Expect()))
 		}
-		if aj, _ := h.ToJSON(); !all.Unordered(kind) && !bytes.Equal(aj, beforeJSON) {
-			return info, fmt.Errorf("%s: %s(%s) returned error %q but ToJSON changed: %s -> %s", kind, c.Via, in, err, beforeJSON, aj)
+
+		// reference denotation: encoding/json into a FRESH slice / map
+		if all.KeyValue(kind) {
+			refErr = json.Unmarshal(inBytes, &refMap)
+		} else {
+			refErr = json.Unmarshal(inBytes, &refSlice)
 		}
-	} else {
-		info.Label("out:ok")
-		if refErr != nil {
-			return info, fmt.Errorf("%s: %s(%s) returned nil although the input denotes nothing (encoding/json: %v); container now %s", kind, c.Via, in, refErr, describe(after))
+
+		if c.Via == "unmarshal" {
+			err = json.Unmarshal(inBytes, h.AsJSON)
+		} else {
+			err = h.FromJSON(inBytes)
 		}
-		// the content is exactly what the input denotes, under the kind's discipline
-		m.Apply(d, script.Op{O: "clear"})
-		switch fam {
-		case "list", "queue":
-			for _, x := range refSlice {
-				if kind == "circularbuffer" && len(m.Seq) == c.Cfg.Cap {
-					m.Seq = m.Seq[1:]
-				}
-				m.Seq = append(m.Seq, x)
+		after := h.Observe()
+		in = fmt.Sprintf("%q", inBytes)
+
+		switch {
+		case refErr != nil:
+			info.Label("in:rejected-by-encoding/json")
+		case bytes.Equal(bytes.TrimSpace(inBytes), []byte("null")):
+			info.Label("in:null")
+		case len(refSlice)+len(refMap) == 0:
+			info.Label("in:empty")
+		default:
+			info.Label("in:valid-non-empty")
+		}
+
+		if err != nil {
+			info.Label("out:error")
+			// atomic on error: exactly as before
+			if !all.EqualStates(before, after) {
+				return info, fmt.Errorf("%s: %s(%s) returned error %q but changed the container: %s -> %s", kind, c.Via, in, err, describe(before), describe(after))
 			}
-			if kind == "circularbuffer" {
-				m.Enqueued = len(refSlice)
+			if aj, _ := h.ToJSON(); !all.Unordered(kind) && !bytes.Equal(aj, beforeJSON) {
+				return info, fmt.Errorf("%s: %s(%s) returned error %q but ToJSON changed: %s -> %s", kind, c.Via, in, err, beforeJSON, aj)
 			}
-		case "stack":
-			if kind == "arraystack" { // serialises bottom-to-top
+		} else {
+			info.Label("out:ok")
+			if refErr != nil {
+				return info, fmt.Errorf("%s: %s(%s) returned nil although the input denotes nothing (encoding/json: %v); container now %s", kind, c.Via, in, refErr, describe(after))
+			}
+			// the content is exactly what the input denotes, under the kind's discipline
+			m.Apply(d, script.Op{O: "clear"})
+			switch fam {
+			case "list", "queue":
 				for _, x := range refSlice {
-					m.Seq = slices.Insert(m.Seq, 0, x)
-				}
-			} else { // linked stack: top-to-bottom
-				m.Seq = slices.Clone(refSlice)
-			}
-		case "heap":
-			m.Seq = slices.Clone(refSlice)
-		case "set":
-			for _, x := range refSlice {
-				if _, ok := m.Map[x]; !ok {
-					m.Map[x] = x
-					m.Order = append(m.Order, x)
-				}
-			}
-		case "map", "tree":
-			for k, v := range refMap {
-				m.Map[k] = v
-			}
-			if kind == "linkedhashmap" {
-				order, dup := objectKeyOrder(c.In)
-				if dup {
-					// position of a key that occurs twice is unspecified: adopt what the container did
-					m.Order = slices.Clone(after.Keys)
-					if len(m.Order) != len(m.Map) {
-						return info, fmt.Errorf("linkedhashmap: %s(%s) holds keys %#v, input denotes %d keys", c.Via, in, after.Keys, len(m.Map))
+					if kind == "circularbuffer" && len(m.Seq) == c.Cfg.Cap {
+						m.Seq = m.Seq[1:]
 					}
-					info.Label("in:duplicate-keys")
-				} else {
-					for _, ks := range order {
-						if k, ok := parseKey(ks); ok {
-							if _, present := m.Map[k]; present && !slices.Contains(m.Order, k) {
-								m.Order = append(m.Order, k)
+					m.Seq = append(m.Seq, x)
+				}
+				if kind == "circularbuffer" {
+					m.Enqueued = len(refSlice)
+				}
+			case "stack":
+				if kind == "arraystack" { // serialises bottom-to-top
+					for _, x := range refSlice {
+						m.Seq = slices.Insert(m.Seq, 0, x)
+					}
+				} else { // linked stack: top-to-bottom
+					m.Seq = slices.Clone(refSlice)
+				}
+			case "heap":
+				m.Seq = slices.Clone(refSlice)
+			case "set":
+				for _, x := range refSlice {
+					if _, ok := m.Map[x]; !ok {
+						m.Map[x] = x
+						m.Order = append(m.Order, x)
+					}
+				}
+			case "map", "tree":
+				for k, v := range refMap {
+					m.Map[k] = v
+				}
+				if kind == "linkedhashmap" {
+					order, dup := objectKeyOrder(inBytes)
+					if dup {
+						// position of a key that occurs twice is unspecified: adopt what the container did
+						m.Order = slices.Clone(after.Keys)
+						if len(m.Order) != len(m.Map) {
+							return info, fmt.Errorf("linkedhashmap: %s(%s) holds keys %#v, input denotes %d keys", c.Via, in, after.Keys, len(m.Map))
+						}
+						info.Label("in:duplicate-keys")
+					} else {
+						for _, ks := range order {
+							if k, ok := parseKey(ks); ok {
+								if _, present := m.Map[k]; present && !slices.Contains(m.Order, k) {
+									m.Order = append(m.Order, k)
+								}
 							}
 						}
 					}
 				}
-			}
-		case "bidi":
-			// for each distinct value exactly one of the keys carrying it survives; which
-			// one depends on Go's map order — any is accepted and the model adopts it
-			byValue := map[E][]E{}
-			for k, v := range refMap {
-				byValue[v] = append(byValue[v], k)
-			}
-			if after.Size != len(byValue) {
-				return info, fmt.Errorf("%s: %s(%s) holds %d pairs, the input denotes %d distinct values; state %s", kind, c.Via, in, after.Size, len(byValue), describe(after))
-			}
-			for k, v := range after.Pairs {
-				if rv, ok := refMap[k]; !ok || rv != v {
-					return info, fmt.Errorf("%s: %s(%s) holds pair %#v:%#v, which the input does not denote", kind, c.Via, in, k, v)
+			case "bidi":
+				// for each distinct value exactly one of the keys carrying it survives; which
+				// one depends on Go's map order — any is accepted and the model adopts it
+				byValue := map[E][]E{}
+				for k, v := range refMap {
+					byValue[v] = append(byValue[v], k)
 				}
-				m.Map[k] = v
-				m.Order = append(m.Order, k)
+				if after.Size != len(byValue) {
+					return info, fmt.Errorf("%s: %s(%s) holds %d pairs, the input denotes %d distinct values; state %s", kind, c.Via, in, after.Size, len(byValue), describe(after))
+				}
+				for k, v := range after.Pairs {
+					if rv, ok := refMap[k]; !ok || rv != v {
+						return info, fmt.Errorf("%s: %s(%s) holds pair %#v:%#v, which the input does not denote", kind, c.Via, in, k, v)
+					}
+					m.Map[k] = v
+					m.Order = append(m.Order, k)
+				}
+				if len(m.Map) != len(byValue) {
+					return info, fmt.Errorf("%s: %s(%s) is not one-to-one: %s", kind, c.Via, in, describe(after))
+				}
 			}
-			if len(m.Map) != len(byValue) {
-				return info, fmt.Errorf("%s: %s(%s) is not one-to-one: %s", kind, c.Via, in, describe(after))
+			if want := m.Expect(); !all.EqualStates(after, want) {
+				return info, fmt.Errorf("%s: %s(%s) over prior %s gives %s, the input denotes %s", kind, c.Via, in, describe(before), describe(after), describe(want))
+			}
+			if h.Full != nil && h.Full() != (m.Len() == c.Cfg.Cap) {
+				return info, fmt.Errorf("circularbuffer: Full()=%v with %d of %d after %s(%s)", h.Full(), m.Len(), c.Cfg.Cap, c.Via, in)
 			}
 		}
-		if want := m.Expect(); !all.EqualStates(after, want) {
-			return info, fmt.Errorf("%s: %s(%s) over prior %s gives %s, the input denotes %s", kind, c.Via, in, describe(before), describe(after), describe(want))
+
+		shorterNow := err == nil && len(refSlice)+len(refMap) < priorLen
+		if priorLen > 0 && (refErr != nil || shorterNow || bytes.Equal(bytes.TrimSpace(inBytes), []byte("null"))) {
+			anyNT = true
 		}
-		if h.Full != nil && h.Full() != (m.Len() == c.Cfg.Cap) {
-			return info, fmt.Errorf("circularbuffer: Full()=%v with %d of %d after %s(%s)", h.Full(), m.Len(), c.Cfg.Cap, c.Via, in)
+		if li > 0 {
+			info.Label("successive-loads")
 		}
 	}
 
@@ -258,8 +277,7 @@ func checkE[E cmp.Ordered](c Case, d script.Domain[E], parseKey func(string) (E,
 		}
 	}
 
-	shorter := err == nil && len(refSlice)+len(refMap) < priorLen
-	info.NonTrivial = priorLen > 0 && (refErr != nil || shorter || bytes.Equal(bytes.TrimSpace(c.In), []byte("null")))
+	info.NonTrivial = anyNT
 	if priorLen > 0 {
 		info.Label("prior:non-empty")
 	}
@@ -439,6 +457,12 @@ func gen(kind, elem string) func(t *rapid.T) Case {
 		c.Via = "fromjson"
 		if rapid.IntRange(0, 3).Draw(t, "via") == 0 {
 			c.Via = "unmarshal"
+		}
+		if rapid.IntRange(0, 3).Draw(t, "successive") == 0 {
+			k := rapid.IntRange(1, 2).Draw(t, "more")
+			for i := 0; i < k; i++ {
+				c.More = append(c.More, genInput(t, kind, elem, c.Cfg.Cap))
+			}
 		}
 		c.Cont = script.GenOps(t, kind, n, 8)
 		return c
